@@ -566,6 +566,42 @@ def rule_decimal_tie(col, facts):
     col.floor(R, "parity tests in truncate_and_round_decimal", n, 1)
 
 
+def rule_cut_exposes_no_zeros(col, facts):
+    """UNIT-zeros (decimal): the digit writers hand `truncate_and_round_decimal` digits without trailing zeros
+    and every consumer relies on that for what it returns (trim_floats tests `digit_count` against the
+    integer part; the compact writers debug_assert it).  Cutting `95505` to four digits exposes a zero, so on
+    every path that cuts (max_digits < digit_count) the returned count must have gone through the zero
+    trimmer or through round_up (which ends on a non-zero digit) - never be the raw `max_digits`."""
+    from rules.core import resolve_env, simplify_proj
+    R = "UNIT-zeros"
+    f = facts.fn(WF + "shared::truncate_and_round_decimal")
+    rets = {i for i, b in enumerate(f.blocks) if f.live(i) and b["t"]["k"] == "return"}
+    n = bad = 0
+    where = f.loc()
+    for t, atoms, env in enum_paths(f, 0, rets, want_env=True, resolve_atoms=True):
+        cut = False
+        for a, p in atoms:
+            a = strip_casts(a)
+            if a[0] == "bin" and a[1] in ("Ge", "Lt", "Le", "Gt") and "digit_count" in show(a):
+                cut = cut or (a[1] == "Ge" and p is False) or (a[1] == "Lt" and p is True)
+        if not cut:
+            continue
+        n += 1
+        r = env.get(0)
+        e = resolve_env(r[1], env) if r and r[0] == "expr" else None
+        first = None
+        if e is not None:
+            e1 = strip_casts(simplify_proj(e))
+            if e1[0] == "agg" and len(e1[2]) == 2:
+                first = strip_casts(simplify_proj(e1[2][0]))
+        names = {last_seg(c[1]) for c in expr_calls(first)} if first is not None else set()
+        ok = first is not None and bool(names & {"rtrim_zeros", "rtrim_char_count", "round_up"})
+        if not ok:
+            bad += 1
+    col.check(R, "truncate_and_round_decimal:cut-trims-zeros", bad == 0 and n >= 3,
+              "%d of %d cutting paths return the raw max_digits as the digit count: a zero exposed by the cut is counted as a digit (`955.05` to 4 digits with trim_floats prints `955.0`; the compact writers' debug assertion fails)" % (bad, n), where)
+
+
 def rule_padding_not_disabled_by_trim(col, facts):
     """MPT-pad: `trim_floats` only removes the `.0` of integral outputs; it must not switch off the zero padding up
     to min_significant_digits for everything else.  For every padding site (a fill(b'0') after min_exact_digits)
@@ -608,3 +644,4 @@ def run(col, configs, tier):
         guarded(col, rule_point_zero_counted, facts)
         guarded(col, rule_decimal_tie, facts)
         guarded(col, rule_padding_not_disabled_by_trim, facts)
+        guarded(col, rule_cut_exposes_no_zeros, facts)
